@@ -88,6 +88,10 @@ pub struct Spec {
     /// C19 schedule: (instance, thread)
     pub sched: Vec<(u8, u8)>,
     pub threads: u8,
+    /// runtime logging configuration of the process during this run: a (discarding) logger is always
+    /// installed; `true` raises the `log` max level to Trace for the run, `false` leaves it Off
+    #[serde(default)]
+    pub logger: bool,
 }
 
 #[derive(Clone, Debug, PartialEq)]
